@@ -1,7 +1,8 @@
 // C18 correspondence harness: builds the REAL AsciiChar / Sequence / Alternate / Star / Not
 // values recursively from an expression tree and runs them on the case's buffer.
 //
-//   case   : <tag> <expr> <hexbuf> <pos> [<hexbuf> <pos>]*   (several steps: the SAME parser object
+//   case   : <tag> <expr> <hexbuf> <pos> [<hexbuf> <pos>]*   (hexbuf may be `<n>*<hex>` segments joined by `+`:
+//            long runs; several steps: the SAME parser object
 //            is applied to each buffer/cursor in turn; step outputs are joined by " ; ")
 //            expr (prefix, no blanks):  .XY seq   |XY alt   *X star   !X not
 //                                       U any-ascii   =hh byte==hh   ~hh byte!=hh   [llhh ll<=byte<=hh
@@ -296,9 +297,30 @@ fn show(t: &LV, out: &mut String) {
     }
 }
 
+// buffer word: <hex> | - | segments joined by `+`, a segment being <hex> or <n>*<hex> (repeated n times)
+fn expand(d: &str) -> Option<Vec<u8>> {
+    if !d.contains('+') && !d.contains('*') {
+        return Some(unhex(d))
+    }
+    let mut out = Vec::new();
+    for seg in d.split('+') {
+        match seg.split_once('*') {
+            Some((n, h)) => {
+                let k: usize = n.parse().ok()?;
+                let b = unhex(h);
+                for _ in 0 .. k {
+                    out.extend_from_slice(&b)
+                }
+            },
+            None => out.extend_from_slice(&unhex(seg)),
+        }
+    }
+    Some(out)
+}
+
 // One step: the (reused) parser object on a fresh buffer at the given cursor.
 fn step(p: &mut Node, hex: &str, pos: &str) -> Option<String> {
-    let buf = unhex(hex);
+    let buf = expand(hex)?;
     let pos: usize = pos.parse().ok()?;
     let mut pb = ParseBuffer::new(buf);
     if pb.set_cursor(pos).is_err() {
